@@ -29,10 +29,20 @@ func main() {
 	replay := flag.String("replay", "", "replay file")
 	bound := flag.Int("bound", -1, "deviation bound override for this pass")
 	list := flag.Bool("list", false, "list property ids")
+	rules := flag.Bool("rules", false, "print the enumeration rule of every property as JSON")
 	aux := flag.Bool("aux", false, "run the property's auxiliary entry point with the remaining arguments")
 	needs := flag.Bool("needs", false, "print the binaries (build variants) the check needs")
 	flag.Parse()
 
+	if *rules {
+		m := map[string]string{}
+		for _, p := range props.All() {
+			m[p.ID] = p.Rule
+		}
+		b, _ := json.MarshalIndent(m, "", " ")
+		fmt.Println(string(b))
+		return
+	}
 	if *list {
 		for _, p := range props.All() {
 			fmt.Println(p.ID)
